@@ -462,3 +462,72 @@ func init() {
 		return res, nil
 	})
 }
+
+// ---- controller-runtime client: Get/List fill the object passed in; writers refresh its metadata ----
+func init() {
+	objArg := func(x *FnExec, fr *frame, n *node, c *ssa.CallCommon, i int) (Val, bool) {
+		if i >= len(c.Args) {
+			return Val{}, false
+		}
+		if mi, ok := c.Args[i].(*ssa.MakeInterface); ok {
+			if _, isPtr := mi.X.Type().Underlying().(*types.Pointer); isPtr {
+				return x.value(fr, n.env, mi.X), true
+			}
+		}
+		return Val{}, false
+	}
+	fill := func(argIdx int, what string) func(x *FnExec, fr *frame, n *node, in ssa.Instruction, c *ssa.CallCommon, args []Val, reach, hint string) (Val, error) {
+		return func(x *FnExec, fr *frame, n *node, in ssa.Instruction, c *ssa.CallCommon, args []Val, reach, hint string) (Val, error) {
+			res := x.havocVal(hint, resultType(in, c), reach)
+			// for invoke calls c.Args excludes the receiver
+			if obj, ok := objArg(x, fr, n, c, argIdx); ok {
+				if what == "all" {
+					x.havocPointee(n.st, reach, hint, obj)
+				} else {
+					// writers: the server's copy comes back — metadata (resourceVersion, generation, ...) is refreshed
+					if a := x.pointerAddr(obj); a != nil && a.Root == rootField && a.Idx == "whole" {
+						stt := a.RootT.Underlying().(*types.Struct)
+						for i := 0; i < stt.NumFields(); i++ {
+							if stt.Field(i).Name() == "ObjectMeta" {
+								hn, hs, ft := x.fieldHeap(a.RootT, i)
+								v := x.havocVal(hint+"_meta", ft, reach)
+								x.heapSet(n.st, hn, hs, sto(x.heapGet(n.st, hn, hs), a.Base, v.S))
+							}
+						}
+					}
+				}
+			}
+			x.trusted["controller-runtime client: Get/List overwrite the object passed in with arbitrary type-valid content (any error); Create/Update/Patch/Delete refresh only its ObjectMeta"] = true
+			return res, nil
+		}
+	}
+	wr := func(argIdx int) func(x *FnExec, c *ssa.CallCommon, out map[string]bool) {
+		return func(x *FnExec, c *ssa.CallCommon, out map[string]bool) {
+			if argIdx < len(c.Args) {
+				if mi, ok := c.Args[argIdx].(*ssa.MakeInterface); ok {
+					if pt, ok := mi.X.Type().Underlying().(*types.Pointer); ok {
+						if stt, ok := pt.Elem().Underlying().(*types.Struct); ok {
+							for i := 0; i < stt.NumFields(); i++ {
+								hn, hs, _ := x.fieldHeap(pt.Elem(), i)
+								x.q.heapDecl(hn, hs)
+								out[hn] = true
+							}
+						}
+					}
+				}
+			}
+		}
+	}
+	for _, iface := range []string{"sigs.k8s.io/controller-runtime/pkg/client.Client", "sigs.k8s.io/controller-runtime/pkg/client.Reader", "sigs.k8s.io/controller-runtime/pkg/client.WithWatch"} {
+		libInvokeModels[iface+".Get"] = &libModel{name: "client.Get", apply: fill(2, "all"), writes: wr(2)}
+		libInvokeModels[iface+".List"] = &libModel{name: "client.List", apply: fill(1, "all"), writes: wr(1)}
+		for _, m := range []string{"Create", "Update", "Patch", "Delete"} {
+			libInvokeModels[iface+"."+m] = &libModel{name: "client." + m, apply: fill(1, "meta"), writes: wr(1)}
+		}
+	}
+	for _, iface := range []string{"sigs.k8s.io/controller-runtime/pkg/client.StatusWriter", "sigs.k8s.io/controller-runtime/pkg/client.SubResourceWriter"} {
+		for _, m := range []string{"Update", "Patch"} {
+			libInvokeModels[iface+"."+m] = &libModel{name: "client.Status()." + m, apply: fill(1, "meta"), writes: wr(1)}
+		}
+	}
+}
